@@ -415,6 +415,19 @@ func (fc *FnCtx) applyAxioms() {
 			if done[ax.Name] || (ax.Mode != "" && ax.Mode != modeName) {
 				continue
 			}
+			if ax.Optional {
+				used := false
+				if fc.spec != nil {
+					for _, u := range fc.spec.Uses {
+						if u == ax.Name {
+							used = true
+						}
+					}
+				}
+				if !used {
+					continue
+				}
+			}
 			if !fc.axiomRelevant(ax.Expr) || !fc.axiomTriggerable(ax.Expr) {
 				continue
 			}
@@ -594,6 +607,48 @@ func (g *Gen) discharge(fcs []*FnCtx, filter func(*Oblig) bool) {
 				}
 			}()
 		}
+	}
+	wg.Wait()
+	// Second chance for proof obligations on which some solver ran out of time (as opposed to giving up at once):
+	// they are re-run, a few at a time, with three times the budget and another seed. A proof found now is a proof;
+	// this only keeps slow-but-provable obligations from being reported when the machine is loaded.
+	var again []*Oblig
+	byO := map[*Oblig]*FnCtx{}
+	for _, fc := range fcs {
+		for _, o := range fc.obligs {
+			if (filter != nil && !filter(o)) || o.Cover || o.Status != "undecided" || o.Result == nil {
+				continue
+			}
+			timedOut := false
+			for _, v := range o.Result.All {
+				if v == "timeout" {
+					timedOut = true
+				}
+			}
+			if timedOut {
+				again = append(again, o)
+				byO[o] = fc
+			}
+		}
+	}
+	sem := make(chan struct{}, 4)
+	for _, o := range again {
+		o := o
+		wg.Add(1)
+		sem <- struct{}{}
+		go func() {
+			defer wg.Done()
+			defer func() { <-sem }()
+			r := runPortfolio(o.Name+"/retry", o.Query, 3*g.timeoutS, g.seed+7)
+			if r.Verdict == "unsat" {
+				o.Result = r
+				o.Status = "discharged"
+				o.Retried = true
+			} else if r.Verdict == "sat" {
+				o.Result = r
+				o.Status = "failed"
+			}
+		}()
 	}
 	wg.Wait()
 }
